@@ -277,6 +277,13 @@ func commitMatchesDigest(run *evid.Run, round int) {
 		return
 	}
 	base := []byte(fmt.Sprintf("base %d ", round))
+	large := round%5 == 4
+	if large {
+		// content big enough for the digest computation inside Commit to take milliseconds: writes by
+		// the other goroutines fall into it
+		base = append(base, bytes.Repeat([]byte("0123456789abcdef"), 256*1024)...)
+		run.Count("commit_rounds_large_content", 1)
+	}
 	w.Write(base)
 	id := w.ID()
 	var wg sync.WaitGroup
@@ -290,6 +297,9 @@ func commitMatchesDigest(run *evid.Run, round int) {
 				return
 			}
 			for i := 0; i < 20; i++ {
+				if large {
+					time.Sleep(time.Duration(50+g*70+i*13) * time.Microsecond)
+				}
 				w2.Write([]byte{byte('a' + g)})
 				if i%7 == 0 {
 					w2.Size()
